@@ -236,9 +236,11 @@ vector<string> AbstractParameterAliasable::getAlias(const string& name) const
     {
       string alias = it.second->getAlias();
       aliases.push_back(alias);
-      if (alias != name)
+      // The listeners know their source by its name without the namespace: follow the chain under that name.
+      string shortAlias = getParameterNameWithoutNamespace(alias);
+      if (shortAlias != name)
       {
-        vector<string> chainAliases = getAlias(alias);
+        vector<string> chainAliases = getAlias(shortAlias);
         VectorTools::append(aliases, chainAliases);
       }
     }
